@@ -73,7 +73,7 @@ class Result(object):
             self.samples.append(s)
 
 
-CONFIG_TAGS = (' [-DNDEBUG build]', ' [i386]')
+CONFIG_TAGS = (' [-DNDEBUG build]', ' [i386]', ' [armv6m]')
 
 
 def finish(res, checker_cmd):
